@@ -1466,6 +1466,9 @@ impl Evaluator {
         }
 
         destination.set_is_ntt_form(encrypted.is_ntt_form());
+        // The destination may have held another ciphertext: every metadata field must come from the input.
+        destination.set_scale(encrypted.scale());
+        destination.set_correction_factor(encrypted.correction_factor());
         if scheme == SchemeType::CKKS {
             destination.set_scale(encrypted.scale() / parms.coeff_modulus().last().unwrap().value() as f64);
         } else if scheme == SchemeType::BGV {
